@@ -448,7 +448,7 @@ func (e *Engine) initUFuncs() {
 func (e *Engine) verifyFunc(fn *ssa.Function, con *Contract) *FnCtx {
 	c := &FnCtx{eng: e, fn: fn, name: e.displayName(fn), con: con, declSet: map[string]bool{}, lits: map[string]string{},
 		ordinals: map[string]int{}, instrOrd: map[ssa.Instruction]map[string]int{}, assumed: map[string]bool{},
-		unsup: map[string]bool{}, budget: 200000, used: map[string]bool{}, sorts: map[string]string{}, constArrs: map[string]string{},
+		unsup: map[string]bool{}, budget: 200000, used: map[string]bool{}, sorts: map[string]string{}, constArrs: map[string]string{}, litText: map[string]string{}, catParts: map[string][]strAtom{},
 		entryVals: map[*ssa.Parameter]Val{}, entryFrees: map[*ssa.FreeVar]Val{}}
 	c.quantHeavy = con != nil && con.Arith2 == "heapwf"
 	c.checked = con != nil && con.Arith == "checked"
